@@ -21,7 +21,7 @@ def scase(sources, reqs):
 
 class C11(Spec):
     pid = "C11"
-    groups = ["vpub"]
+    groups = ["vpub", "vnet"]
     title = "A feed is the newest-first merge of its sources, each item exactly once"
     oracle_filter = {"equals_model"}
     rule = ("0..5 synthetic sources (lazy lists served in the chunks asked for) of 0..6 items with timestamps (quarter-second units, so distinct stamps share whole seconds) that are sorted, "
@@ -77,6 +77,8 @@ class C11(Spec):
         return [Batch("c11-search", [self.rand_case(rng) for _ in range(20000)])]
 
     def nontrivial(self, case, res):
+        if case.op == "net":
+            return case.meta.get("sources", 0) >= 2 and case.meta.get("items", 0) >= 3
         m = case.meta
         return sum(1 for s in m["sources"] if s) >= 2 and len(m["reqs"]) >= 2
 
@@ -87,7 +89,71 @@ class C11(Spec):
         for i in range(len(m["reqs"]) - 1, 0, -1):
             yield scase(m["sources"], m["reqs"][:i])
 
+    def remote_feed_world(self, rng, base):
+        """feed sources fetched from the simulator: collections (one or several pages by URL) of notes with timestamps"""
+        import datetime
+        import netgen
+        w = netgen.World(base, 128)
+        nsrc = rng.randint(1, 4)
+        tag = itertools.count(1)
+        stamps = {}
+        urls = []
+        for si in range(nsrc):
+            r = rng.random()
+            if r < 0.12:
+                # a source that is a post without replies: no page at all
+                u = w.url(rng.randrange(3), "/note%d" % si)
+                w.serve(u, netgen.ok_json({"type": "Note", "name": "lonely", "content": "x"}))
+                urls.append(u)
+                continue
+            if r < 0.2:
+                u = w.url(rng.randrange(3), "/missing%d" % si)       # 404: an error item, no page
+                urls.append(u)
+                continue
+            npages = rng.choice((1, 1, 2, 3))
+            sizes = [rng.choice((0, 1, 2, 3, 5)) for _ in range(npages)]
+            total = sum(sizes)
+            # newest first within a source, as servers deliver them (sometimes unsorted or with ties)
+            sts = sorted((rng.randint(1, 40) for _ in range(total)), reverse=True)
+            if rng.random() < 0.2:
+                rng.shuffle(sts)
+            purls = [w.url(rng.randrange(3), "/src%d/p%d" % (si, k)) for k in range(npages)]
+            it = iter(sts)
+            for k in range(npages):
+                items = []
+                for _ in range(sizes[k]):
+                    t = next(tag)
+                    st = next(it)
+                    stamps[t] = st
+                    when = datetime.datetime(2023, 11, 14, 22, 13, 20, tzinfo=datetime.timezone.utc) + datetime.timedelta(milliseconds=250 * st)
+                    items.append({"type": "Note", "name": "t%d" % t, "content": "x", "published": when.strftime("%Y-%m-%dT%H:%M:%S.") + "%03dZ" % (when.microsecond // 1000)})
+                d = {"type": "OrderedCollection" if k == 0 else "OrderedCollectionPage", "orderedItems": items}
+                if k + 1 < npages:
+                    d["first" if k == 0 else "next"] = purls[k + 1]
+                w.register_strings(d)
+                w.serve(purls[k], netgen.ok_json(d))
+            urls.append(purls[0])
+        amounts = [rng.randint(1, 6) for _ in range(rng.randint(1, 5))]
+        if rng.random() < 0.2:
+            amounts = [30]
+        w.feed(urls, stamps, amounts)
+        w.meta.update({"sources": len(urls), "items": len(stamps), "amounts": amounts})
+        return w
+
     def extra_checks(self, scratch, binary, rng, tier, report):
+        import netgen
+        import runner
+        base = netgen.pick_port_base(rng)
+        cases = [self.remote_feed_world(rng, base).case() for _ in range(150 if tier == "quick" else 5000)]
+        b = Batch("c11-remote", cases, config="[network]\ntimeout_seconds = 2\n", env={"VERIF_SIM_PORT_BASE": str(base), "VERIF_CASE_TIMEOUT": "40"}, timeout=900,
+                  correspondence="splicer.NewSplicer over sources fetched from the simulator + Harvest == Splicer.sp_harvest over Paging pages")
+        b.parallel = False
+        saved = (self.oracle_filter, self.no_compare_ops)
+        self.oracle_filter, self.no_compare_ops = {"results_equal_model", "well_formed_result"}, ("net",)
+        try:
+            runner.run_batches(self, scratch, binary, [b], report)
+        finally:
+            self.oracle_filter, self.no_compare_ops = saved
         report.extra["exhaustive"] = True
         report.extra["exhaustive_scope"] = "<= 3 sources x <= 2 items x timestamps {1,2,3} x first request size {0,1,2,7}"
 
